@@ -134,43 +134,45 @@ def directed_programs(cfg, seed):
 
 # ------------------------------------------------------------------------------------------------ scenarios
 def scenarios(tier, seed):
+    """One scenario = one trace file = one TLC run; it batches several independent executions (runs) of one family."""
     S = []
     q = tier == "quick"
-    n = 160 if q else 400
+    n = 120 if q else 400
     s0 = seed * 1009
 
     def add(name, family, runs):
         S.append(dict(name=name, family=family, runs=runs))
 
     # ---- std: plain mode, regime every configuration must serve
-    c = _cfg(wdepth=4, rdepth=4)
-    add("std-uniform-d4", "std", [_run(c, s0 + 1, gen=_gen(c, n))])
-    c = _cfg(wdepth=2, rdepth=2, idw=2)
-    add("std-uniform-d2", "std", [_run(c, s0 + 2, gen=_gen(c, n), bready=("wait", 0.6), rready=("wait", 0.6))])
-    c = _cfg(wdepth=3, rdepth=5, idw=8)
-    add("std-uniform-d3r5", "std", [_run(c, s0 + 3, gen=_gen(c, n, pdep=0.5), mo=3)])
-    c = _cfg(wdepth=16, rdepth=16, nwords=32)
-    add("std-b2b-d16", "std", [_run(c, s0 + 4, gen=_gen(c, n, maxlen=1, awgap="b2b", wgap="b2b", argap="b2b", pwrite=0.6),
-                                    bready=("always",), rready=("always",), stall=0.0, lat=(3, 5))])
-    c = _cfg(wdepth=8, rdepth=2)
-    add("std-rstall-bblock", "std", [_run(c, s0 + 5, gen=_gen(c, n, maxlen=3), bready=("block", 150, 120), rready=("wait", 0.85))])
-    c = _cfg(wdepth=4, rdepth=4)
-    add("std-wlead", "std", [_run(c, s0 + 6, gen=_gen(c, n, awgap="slow", wgap="fast"), wlead=3)])
-    c = _cfg(wdepth=4, rdepth=4)
-    add("std-narrow-unaligned", "std", [_run(c, s0 + 7, gen=_gen(c, n, narrow=0.6, unaligned=0.4))])
-    c = _cfg(wdepth=8, rdepth=8, nwords=64)
-    add("std-long", "std", [_run(c, s0 + 8, gen=_gen(c, n // 2, long=0.4, longmax=40, maxlen=15), lat=(3, 6))])
-    c = _cfg(wdepth=4, rdepth=4, idw=1, nwords=8)
-    add("std-oneid-hot", "std", [_run(c, s0 + 9, gen=_gen(c, n, oneid=True, pdep=0.5, maxlen=3))])
-    c = _cfg(dw=64, wdepth=4, rdepth=4, base=0x10000000)
-    add("std-base-dw64", "std", [_run(c, s0 + 10, gen=_gen(c, n, narrow=0.2))])
-    c = _cfg(wdepth=4, rdepth=4)
-    add("std-slow-wdata", "std", [_run(c, s0 + 12, gen=_gen(c, n * 2 // 3, awgap="b2b", wgap="slow", pwrite=0.7), lat=(3, 3), stall=0.0,
-                                       bready=("always",))])
-    c = _cfg(wdepth=5, rdepth=3, base=0x40000000)
-    add("std-slowmem", "std", [_run(c, s0 + 11, gen=_gen(c, n), lat=(3, 40), stall=0.7)])
+    c1 = _cfg(wdepth=4, rdepth=4)
+    c2 = _cfg(wdepth=2, rdepth=2, idw=2)
+    c3 = _cfg(wdepth=3, rdepth=5, idw=8)
+    add("std-uniform", "std", [_run(c1, s0 + 1, gen=_gen(c1, n)),
+                               _run(c2, s0 + 2, gen=_gen(c2, n), bready=("wait", 0.6), rready=("wait", 0.6)),
+                               _run(c3, s0 + 3, gen=_gen(c3, n, pdep=0.5), mo=3)])
+    c1 = _cfg(wdepth=16, rdepth=16, nwords=32)
+    c2 = _cfg(wdepth=8, rdepth=2)
+    c3 = _cfg(wdepth=4, rdepth=4)
+    add("std-stalls", "std", [_run(c1, s0 + 4, gen=_gen(c1, n, maxlen=1, awgap="b2b", wgap="b2b", argap="b2b", pwrite=0.6),
+                                   bready=("always",), rready=("always",), stall=0.0, lat=(3, 5)),
+                              _run(c2, s0 + 5, gen=_gen(c2, n, maxlen=3), bready=("block", 150, 120), rready=("wait", 0.85)),
+                              _run(c3, s0 + 12, gen=_gen(c3, n, awgap="b2b", wgap="slow", pwrite=0.7), lat=(3, 3), stall=0.0,
+                                   bready=("always",))])
+    c1 = _cfg(wdepth=4, rdepth=4)
+    c2 = _cfg(wdepth=4, rdepth=4)
+    c3 = _cfg(wdepth=8, rdepth=8, nwords=64)
+    add("std-shapes", "std", [_run(c1, s0 + 6, gen=_gen(c1, n, awgap="slow", wgap="fast"), wlead=3),
+                              _run(c2, s0 + 7, gen=_gen(c2, n, narrow=0.6, unaligned=0.4)),
+                              _run(c3, s0 + 8, gen=_gen(c3, n // 2, long=0.4, longmax=40, maxlen=15), lat=(3, 6))])
+    c1 = _cfg(wdepth=4, rdepth=4, idw=1, nwords=8)
+    c2 = _cfg(dw=64, wdepth=4, rdepth=4, base=0x10000000)
+    c3 = _cfg(wdepth=5, rdepth=3, base=0x40000000)
+    add("std-configs", "std", [_run(c1, s0 + 9, gen=_gen(c1, n, oneid=True, pdep=0.5, maxlen=3)),
+                               _run(c2, s0 + 10, gen=_gen(c2, n, narrow=0.2)),
+                               _run(c3, s0 + 11, gen=_gen(c3, n), lat=(3, 40), stall=0.7)])
     if not q:
         k = 20
+        grp = []
         for dw in (32, 64, 128):
             for (wd, rd) in ((2, 2), (3, 3), (4, 8), (7, 2), (16, 16)):
                 for base in (0, 0x1000, 0x40000000):
@@ -178,44 +180,49 @@ def scenarios(tier, seed):
                     c = _cfg(dw=dw, wdepth=wd, rdepth=rd, base=base, idw=1 + k % 8, nwords=16 + 16 * (k % 3))
                     prof = [dict(), dict(narrow=0.5, unaligned=0.3), dict(maxlen=1, awgap="b2b", wgap="b2b", argap="b2b"),
                             dict(long=0.3, maxlen=15)][k % 4]
-                    add("std-grid-%d-dw%d-w%dr%d-%x" % (k, dw, wd, rd, base), "std",
-                        [_run(c, s0 + k, gen=_gen(c, n, **prof), wlead=k % 3, bready=[("rand", 0.3), ("wait", 0.7), ("block", 90, 60)][k % 3],
-                              rready=[("rand", 0.5), ("always",), ("wait", 0.8)][k % 3], stall=[0.3, 0.0, 0.6][k % 3],
-                              lat=[(3, 12), (3, 4), (5, 30)][k % 3])])
+                    grp.append(_run(c, s0 + k, gen=_gen(c, n // 2, **prof), wlead=k % 3,
+                                    bready=[("rand", 0.3), ("wait", 0.7), ("block", 90, 60)][k % 3],
+                                    rready=[("rand", 0.5), ("always",), ("wait", 0.8)][k % 3], stall=[0.3, 0.0, 0.6][k % 3],
+                                    lat=[(3, 12), (3, 4), (5, 30)][k % 3]))
+                    if len(grp) == 3:
+                        add("std-grid-%d" % k, "std", grp)
+                        grp = []
     # ---- dir: directed programs, one trace
     c = _cfg(wdepth=4, rdepth=4, nwords=16)
     add("dir-plain", "dir", [_run(c, s0 + 30 + i, prog=prog, **kw) for i, (_, prog, kw) in enumerate(directed_programs(c, s0))])
     c = _cfg(wdepth=2, rdepth=3, nwords=16, base=0x1000)
     add("dir-plain-d2", "dir", [_run(c, s0 + 40 + i, prog=prog, **kw) for i, (_, prog, kw) in enumerate(directed_programs(c, s0 + 1))])
     # ---- rmw: read-modify-write mode inside its working regime
-    c = _cfg(wdepth=4, rdepth=4, rmw=1)
-    add("rmw-phased", "rmw", [_run(c, s0 + 50, gen=_gen(c, n, strb="phased"))])
-    c = _cfg(wdepth=2, rdepth=2, rmw=1, idw=2)
-    add("rmw-partial-d2", "rmw", [_run(c, s0 + 51, gen=_gen(c, n * 2 // 3, strb="ppartial", maxlen=3), bready=("wait", 0.5))])
-    c = _cfg(wdepth=8, rdepth=8, rmw=1)
-    add("rmw-narrow", "rmw", [_run(c, s0 + 52, gen=_gen(c, n * 2 // 3, strb="ppartial", narrow=0.7, unaligned=0.3))])
+    c1 = _cfg(wdepth=4, rdepth=4, rmw=1)
+    c2 = _cfg(wdepth=2, rdepth=2, rmw=1, idw=2)
+    c3 = _cfg(wdepth=8, rdepth=8, rmw=1)
+    add("rmw-random", "rmw", [_run(c1, s0 + 50, gen=_gen(c1, n, strb="phased")),
+                              _run(c2, s0 + 51, gen=_gen(c2, n * 2 // 3, strb="ppartial", maxlen=3), bready=("wait", 0.5)),
+                              _run(c3, s0 + 52, gen=_gen(c3, n * 2 // 3, strb="ppartial", narrow=0.7, unaligned=0.3))])
     c = _cfg(wdepth=4, rdepth=4, rmw=1, nwords=16)
     add("dir-rmw", "rmw", [_run(c, s0 + 60 + i, prog=prog, **kw) for i, (lbl, prog, kw) in enumerate(directed_programs(c, s0 + 2))
                            if lbl in ("strobes", "fixed", "wrap-all")])
     if not q:
+        grp = []
         for k, (wd, rd, dw) in enumerate(((3, 3, 32), (16, 16, 64), (5, 2, 128), (2, 7, 32))):
             c = _cfg(dw=dw, wdepth=wd, rdepth=rd, rmw=1, base=[0, 0x1000][k % 2])
-            add("rmw-grid-%d" % k, "rmw", [_run(c, s0 + 70 + k, gen=_gen(c, n, strb=["phased", "ppartial"][k % 2], narrow=0.2 * (k % 2)))])
+            grp.append(_run(c, s0 + 70 + k, gen=_gen(c, n // 2, strb=["phased", "ppartial"][k % 2], narrow=0.2 * (k % 2))))
+        add("rmw-grid", "rmw", grp)
     # ---- regimes outside: each exercises one trigger
+    c1 = _cfg(wdepth=4, rdepth=4)
+    c2 = _cfg(wdepth=3, rdepth=3)
+    add("deep", "deep", [_run(c1, s0 + 80, gen=_gen(c1, n, maxlen=1, awgap="b2b", wgap="b2b", pwrite=0.8), bready=("always",),
+                              lat=(6, 12), stall=0.05, mo=64, wmax=None, max_cycles=6000),
+                         _run(c2, s0 + 81, gen=_gen(c2, n // 2, maxlen=3, awgap="b2b", wgap="b2b", pwrite=0.8), bready=("always",),
+                              lat=(6, 12), stall=0.05, mo=64, wmax=None, max_cycles=3000)])
     c = _cfg(wdepth=4, rdepth=4)
-    add("deep-d4", "deep", [_run(c, s0 + 80, gen=_gen(c, n, maxlen=1, awgap="b2b", wgap="b2b", pwrite=0.8), bready=("always",),
-                                 lat=(6, 12), stall=0.05, mo=64, wmax=None)])
-    c = _cfg(wdepth=3, rdepth=3)
-    add("deep-d3", "deep", [_run(c, s0 + 81, gen=_gen(c, n // 2, maxlen=3, awgap="b2b", wgap="b2b", pwrite=0.8), bready=("always",),
-                                 lat=(6, 12), stall=0.05, mo=64, wmax=None, max_cycles=4000)])
-    c = _cfg(wdepth=4, rdepth=4)
-    add("bstall-d4", "bstall", [_run(c, s0 + 82, gen=_gen(c, n // 2, maxlen=1), bready=("block", 200, 180), lat=(3, 4), wmax=None,
-                                     max_cycles=5000)])
+    add("bstall", "bstall", [_run(c, s0 + 82, gen=_gen(c, n // 2, maxlen=1), bready=("block", 200, 180), lat=(3, 4), wmax=None,
+                                  max_cycles=4000)])
     c = _cfg(wdepth=8, rdepth=8, rmw=1)
-    add("rmwmix-d8", "rmwmix", [_run(c, s0 + 83, gen=_gen(c, n // 2, strb="mixed", wgap="b2b"))])
+    add("rmwmix", "rmwmix", [_run(c, s0 + 83, gen=_gen(c, n // 2, strb="mixed", wgap="b2b"))])
     c = _cfg(wdepth=4, rdepth=4, rmw=1)
-    add("rmwlead-d4", "rmwlead", [_run(c, s0 + 84, gen=_gen(c, n // 3, strb="ppartial", awgap="slow", wgap="fast"), wlead=2,
-                                       max_cycles=4000)])
+    add("rmwlead", "rmwlead", [_run(c, s0 + 84, gen=_gen(c, n // 3, strb="ppartial", awgap="slow", wgap="fast"), wlead=2,
+                                    max_cycles=3000)])
     return S
 
 
@@ -354,24 +361,24 @@ def models(tier, seed):
               label="AXIBurst2Beat recurrence = AXI4 beat addresses (all legal headers of the domain)"),
          # the bridge inside the regime, observed by R_AxiMem (same monitor as the real-code traces)
          _mc("D_Axi2Native write path D=2, 2 bursts x <=2 beats, R_AxiMem observer", NW=2),
-         _mc("D_Axi2Native read path D=2, 2 bursts x <=2 beats, R_AxiMem observer", NW=0, NR=2, workers=2),
          _mc("D_Axi2Native write+read (arbiter) D=2, R_AxiMem observer", NW=1, NR=1),
          # negative control: seeded model bug must be found
          _mc("NEGATIVE CONTROL can_write uses >= (command without buffered data)", NW=2, Bug="can_write_ge", expect=True, workers=2),
          # vacuity: the traffic completes (every handshake kind reachable); more goals in the thorough tier
-         _mc("COVER all traffic completes", NW=1, NR=1, Observe="FALSE", inv=["CoverDone"], expect=True, workers=2),
+         _mc("COVER all traffic completes (1 write + 1 read burst)", NW=1, NR=1, Observe="FALSE", inv=["CoverDone"], expect=True, workers=2),
          # the model of the code AS IT IS leaves the regime: TLC reproduces the findings of families deep / bstall
          _mc("FINDING id_buffer overflow with D+1 write commands waiting (model of the unpatched code)", NW=3, MaxLen=0, MaxOut=3,
              WMaxOut=3, Observe="FALSE", expect=True, workers=2),
-         _mc("FINDING w_buffer_level wraps at D=3 (model of the unpatched code)", D=3, NW=1, MaxLen=3, MaxOut=4, WMaxOut=4,
-             Observe="FALSE", expect=True, workers=2),
-         _mc("FINDING resp_buffer overflow when B is stalled (model of the unpatched code)", NW=3, MaxLen=0, WMaxOut=3, Observe="FALSE",
-             expect=True, workers=2),
          # the proposed patch removes them for an unrestricted environment
          _mc("proposed fix, unrestricted native side and master, D=2, 3 single-beat bursts", NW=3, MaxLen=0, MaxOut=4, WMaxOut=4,
              Observe="FALSE", Fix="proposed", workers=2)]
     if not q:
-        M += [_mc("D_Axi2Native write path D=2, 3 bursts x <=2 beats", NW=3, Observe="FALSE", workers=4, timeout=1100),
+        M += [_mc("D_Axi2Native read path D=2, 2 bursts x <=2 beats, R_AxiMem observer", NW=0, NR=2, workers=2),
+              _mc("FINDING w_buffer_level wraps at D=3 (model of the unpatched code)", D=3, NW=1, MaxLen=3, MaxOut=4, WMaxOut=4,
+                  Observe="FALSE", expect=True, workers=2),
+              _mc("FINDING resp_buffer overflow when B is stalled (model of the unpatched code)", NW=3, MaxLen=0, WMaxOut=3,
+                  Observe="FALSE", expect=True, workers=2),
+              _mc("D_Axi2Native write path D=2, 3 bursts x <=2 beats", NW=3, Observe="FALSE", workers=4, timeout=1100),
               _mc("D_Axi2Native write+read D=2, 2+1 bursts, R_AxiMem observer", NW=2, NR=1, workers=8, timeout=1100),
               _mc("D_Axi2Native write path D=3 inside the regime, 2 bursts x <=3 beats", D=3, NW=2, MaxLen=2, MaxOut=3, WMaxOut=3,
                   Observe="FALSE", workers=4, timeout=1100),
